@@ -1066,3 +1066,57 @@ func c18HeaderDataMismatch(c *Ctx, r *Report) {
 	}
 	r.Floor("R18.4f", "cell-by-cell header reads bounded by the line's cells", n, 6)
 }
+
+// c18InrecNil (R18.13): the current record is tested for nil before use.
+func c18InrecNil(c *Ctx, r *Report) {
+	r.Rule("R18.13", "the current record is tested before use: there is no current record in begin and end blocks (and in functions called from them), so in the interpreter every use of state.Inrec as a record — a field of it read or written, a method of Mlrmap called on it — is dominated by a test of state.Inrec against nil (the validator keeps $-variables out of begin/end blocks of the main program but not out of functions called from there, nor NF, M_PI-like leaves …)")
+	n := 0
+	for _, fn := range c.ModuleFunctions() {
+		if fn.Blocks == nil || fn.Pkg == nil || !strings.HasSuffix(fn.Pkg.Pkg.Path(), "/pkg/dsl/cst") {
+			continue
+		}
+		isInrecLoad := func(v ssa.Value) bool {
+			base, name, ok := fieldLoadName(v)
+			return ok && name == "Inrec" && strings.HasSuffix(strings.TrimPrefix(base.Type().String(), "*"), "pkg/runtime.State")
+		}
+		idx := 0
+		for _, b := range fn.Blocks {
+			for _, in := range b.Instrs {
+				var used ssa.Value
+				switch x := in.(type) {
+				case *ssa.FieldAddr:
+					if isInrecLoad(x.X) {
+						used = x.X
+					}
+				case ssa.CallInstruction:
+					com := x.Common()
+					if cal := com.StaticCallee(); cal != nil && cal.Signature.Recv() != nil && len(com.Args) > 0 && isInrecLoad(com.Args[0]) && strings.HasPrefix(CalleeName(com), "pkg/mlrval.Mlrmap.") {
+						used = com.Args[0]
+					}
+				}
+				if used == nil {
+					continue
+				}
+				n++
+				idx++
+				guarded := false
+				for _, g := range GuardsAt(b) {
+					cmp, ok := g.Cond.(*ssa.BinOp)
+					if !ok || (cmp.Op != token.EQL && cmp.Op != token.NEQ) {
+						continue
+					}
+					k, ok := cmp.Y.(*ssa.Const)
+					if !ok || !k.IsNil() || !isInrecLoad(cmp.X) {
+						continue
+					}
+					if (cmp.Op == token.NEQ && g.Polarity) || (cmp.Op == token.EQL && !g.Polarity) {
+						guarded = true
+					}
+				}
+				r.Check(guarded, "R18.13", fmt.Sprintf("%s: use of the current record #%d", SSAName(fn), idx), c.Rel(in.Pos()), "after state.Inrec != nil",
+					fmt.Sprintf("%s uses state.Inrec at %s with no test against nil on the way: in a begin or end block, or a function called from one, there is no current record and the use is a nil dereference (Go panic)", SSAName(fn), c.Rel(in.Pos())))
+			}
+		}
+	}
+	r.Floor("R18.13", "uses of the current record in the interpreter", n, 20)
+}
